@@ -1,6 +1,7 @@
 package checks
 
 import (
+	"fmt"
 	"strings"
 
 	"verif/mc/core"
@@ -56,13 +57,20 @@ func c08ManyFilesProfile(tier string) *eng.Profile {
 		six(func(i int) core.Call { return core.Call{F: "SRem", B: "s", K: "k", Vs: []string{k(i + 3)}} }),
 		{Kind: "reopen"},
 	}
+	// twelve records in one transaction: file ids reach two digits in ONE op, so that "restart,
+	// then write again, then restart" fits the depth
+	var twelve []core.Call
+	for i := 0; i < 12; i++ {
+		twelve = append(twelve, core.Call{F: "Put", B: "b", K: k(i % 6), V: fmt.Sprintf("t%d", i)})
+	}
+	ops = append([]core.Op{up(twelve...)}, ops...)
 	var qs []core.Call
 	for i := 0; i < 6; i++ {
 		qs = append(qs, core.Call{F: "Get", B: "b", K: k(i)})
 	}
 	qs = append(qs, core.Call{F: "GetAll", B: "b"}, core.Call{F: "LRange", B: "l", K: "k", I: 0, J: -1}, core.Call{F: "SMembers", B: "s", K: "k"},
 		core.Call{F: "ZRangeByRank", B: "z", I: 1, J: -1}, core.Call{F: "ZMembers", B: "z"})
-	kvOnly := func(o []core.Op) []core.Op { return append(append([]core.Op(nil), o[:3]...), o[len(o)-1]) }
+	kvOnly := func(o []core.Op) []core.Op { return append(append([]core.Op(nil), o[:4]...), o[len(o)-1]) }
 	p := &eng.Profile{ID: "C08", Name: "many-files",
 		Cfgs: []core.Cfg{{Mode: core.KV, Seg: 50}, {Mode: core.KV, RW: core.M, Start: core.M, Seg: 50}, {Mode: core.K, Seg: 50}, {Mode: core.S, Seg: 50}},
 		Ops: func(cfg core.Cfg) []core.Op {
@@ -312,9 +320,10 @@ func init() {
 		runKVLong(r, "C08", []core.Cfg{{Mode: core.KV, RW: core.M, Start: core.M, Seg: 392}, {Mode: core.K, RW: core.M, Start: core.M, Seg: 410}, {Mode: core.KV, Seg: 300}})
 	}
 	Registry["C13"] = func(r *Run) {
-		r.Rule = "from every start state reached by <=2 set-up ops, every two-call (thorough: three-call) write transaction in which the second call reads, pops or modifies what the first call wrote (lists, sets, sorted sets, KV: all mutator x call pairs); per-call results and the state after Commit are compared with the sequential composition of the calls on the reference model"
+		r.Rule = "from every start state reached by <=2 set-up ops, every two-call (thorough: three-call) write transaction in which the second call reads, pops or modifies what the first call wrote (lists, sets, sorted sets, KV: all mutator x call pairs); per-call results and the state after Commit are compared with the sequential composition of the calls on the reference model; plus wide transactions: one transaction of 13..26 order-sensitive calls (pushes, repeated puts, re-scored members, set adds) alternating between two or three buckets in several bucket orders, state after Commit and after reopen vs the model"
 		r.Assume = []string{"bodies ignore call errors so that calls invalidated inside the transaction reach Commit"}
 		r.Required = []string{"dependent-body"}
 		r.Explore(c13Profile(r.Tier), "C13")
+		runC13Wide(r)
 	}
 }
